@@ -149,6 +149,14 @@ class Or:
 
 
 @dataclass(frozen=True)
+class Bare:
+    """f printed without the parentheses that text() otherwise puts around a nested and/or:
+    `all(A and B for x in *S)` is a constraint-level conjunction, `all((A and B) for ...)` one
+    Python expression.  Same meaning."""
+    f: Any
+
+
+@dataclass(frozen=True)
 class Quant:
     kind: str  # any | all | exists | forall
     var: str  # python identifier, or "<e>" for the legacy forms
@@ -157,6 +165,13 @@ class Quant:
 
 
 def text(f: Any, top: bool = True) -> str:
+    if isinstance(f, Bare):
+        inner = f.f
+        if isinstance(inner, And):
+            return f"{text(inner.a, False)} and {text(inner.b, False)}"
+        if isinstance(inner, Or):
+            return f"{text(inner.a, False)} or {text(inner.b, False)}"
+        return text(inner, top)
     if isinstance(f, Atom):
         d = {}
         for i, s in enumerate(f.sels):
@@ -192,6 +207,8 @@ def holds(f: Any, tree: Any, env: Optional[dict] = None, variant: Any = ()) -> b
     env = dict(env or {})
     if "descself" in variant:
         env["__descself__"] = True
+    if isinstance(f, Bare):
+        return holds(f.f, tree, env, variant)
     if isinstance(f, Atom):
         return _atom(f, tree, env, variant)
     if isinstance(f, And):
@@ -246,6 +263,10 @@ def _atom(f: Atom, tree: Any, env: dict, variant: Any = ()) -> bool:
     return True
 
 
+def _unused() -> None:
+    return None
+
+
 def uses_not_comparison(f: Any) -> bool:
     """`not X == Y` at formula level: Fandango's grammar reads it as (not X) == Y"""
     if isinstance(f, Atom):
@@ -281,6 +302,8 @@ def from_snapshot(s: tuple) -> Any:
 def merge_whole(f: Any) -> Optional[Atom]:
     """If f is built from atoms with and/or only, the single Python expression a reader may
     also take it for ("truthy for every combination of matches of the symbols it mentions")."""
+    if isinstance(f, Bare):
+        return merge_whole(f.f)
     if isinstance(f, Atom):
         return f
     if isinstance(f, (And, Or)):
@@ -312,3 +335,31 @@ def merge_whole(f: Any) -> Optional[Atom]:
         k = len(body.stars)
         return Atom(f"{f.kind}(({body.template}) for {f.var} in {{s{k}}})", (), body.stars + (f.sel,), body.lens, body.bars)
     return None
+
+
+def readings(f: Any) -> list:
+    """every way a formula may legitimately be read: connectives combine quantified sub-formulas
+    (compositional), or a connective over plain atoms / python-style quantifiers is ONE Python
+    expression (whole); sub-formulas of connectives and quantifiers vary independently"""
+    if isinstance(f, Bare):
+        return readings(f.f)
+    if isinstance(f, Atom):
+        return [f]
+    out = []
+    if isinstance(f, (And, Or)):
+        for a in readings(f.a):
+            for b in readings(f.b):
+                out.append(type(f)(a, b))
+    elif isinstance(f, Quant):
+        for b in readings(f.body):
+            out.append(Quant(f.kind, f.var, f.sel, b))
+    w = merge_whole(f)
+    if w is not None and w is not f:
+        out.append(w)
+    # de-duplicate, keep order
+    seen, res = set(), []
+    for r in out:
+        if r not in seen:
+            seen.add(r)
+            res.append(r)
+    return res[:8]
